@@ -32,27 +32,29 @@ type LoopInfo struct {
 }
 
 type FuncInfo struct {
-	Obj        *types.Func
-	Decl       *ast.FuncDecl
-	Lit        *ast.FuncLit // for function-literal units
-	Pkg        *packages.Package
-	Key        string
-	Contract   *Contract
-	Requires   []SpecClause
-	GhostSets  []ghostSet
-	Assumes    []SpecClause
-	Ensures    []SpecClause
-	Modifies   []ast.Expr
-	HasMod     bool
-	Decreases  []ast.Expr
-	Flags      map[string]string
-	ReplayText ast.Expr
-	Lemmas     []*ast.FuncLit
-	Loops      map[ast.Stmt]*LoopInfo
-	LoopList   []ast.Stmt
-	Results    []*types.Var
-	markers    map[ast.Stmt]bool
-	eff        *Effects
+	Obj              *types.Func
+	Decl             *ast.FuncDecl
+	Lit              *ast.FuncLit // for function-literal units
+	Pkg              *packages.Package
+	Key              string
+	Contract         *Contract
+	Requires         []SpecClause
+	GhostSets        []ghostSet
+	Assumes          []SpecClause
+	Ensures          []SpecClause
+	Modifies         []ast.Expr
+	HasMod           bool
+	Decreases        []ast.Expr
+	Flags            map[string]string
+	ReplayText       ast.Expr
+	SplitExpr        ast.Expr
+	SplitLo, SplitHi int64
+	Lemmas           []*ast.FuncLit
+	Loops            map[ast.Stmt]*LoopInfo
+	LoopList         []ast.Stmt
+	Results          []*types.Var
+	markers          map[ast.Stmt]bool
+	eff              *Effects
 }
 
 func (fi *FuncInfo) Name() string {
@@ -78,26 +80,27 @@ func shortPkg(path string) string {
 }
 
 type Prog struct {
-	Root      string
-	Fset      *token.FileSet
-	Pkgs      map[string]*packages.Package
-	Funcs     map[*types.Func]*FuncInfo
-	ByName    map[string]*FuncInfo
-	Contracts []*Contract
-	Problems  []string
-	Reg       *TypeReg
-	impls     map[string][]types.Type
-	allNamed  []*types.TypeName
-	infoOf    map[*ast.File]*packages.Package
-	addrTaken map[*types.Var]bool
-	recCache  map[*FuncInfo]bool
-	overlay   map[string][]byte
+	Root        string
+	Fset        *token.FileSet
+	Pkgs        map[string]*packages.Package
+	Funcs       map[*types.Func]*FuncInfo
+	ByName      map[string]*FuncInfo
+	Contracts   []*Contract
+	Problems    []string
+	Reg         *TypeReg
+	impls       map[string][]types.Type
+	allNamed    []*types.TypeName
+	infoOf      map[*ast.File]*packages.Package
+	addrTaken   map[*types.Var]bool
+	recCache    map[*FuncInfo]bool
+	overlay     map[string][]byte
+	NonNilElems map[string]bool
 }
 
 const modPath = "github.com/smarthome-go/homescript/v3"
 
 func loadProg(root string) (*Prog, error) {
-	p := &Prog{Root: root, Pkgs: map[string]*packages.Package{}, Funcs: map[*types.Func]*FuncInfo{}, ByName: map[string]*FuncInfo{}, Reg: NewTypeReg(), impls: map[string][]types.Type{}, recCache: map[*FuncInfo]bool{}}
+	p := &Prog{Root: root, Pkgs: map[string]*packages.Package{}, Funcs: map[*types.Func]*FuncInfo{}, ByName: map[string]*FuncInfo{}, Reg: NewTypeReg(), impls: map[string][]types.Type{}, recCache: map[*FuncInfo]bool{}, NonNilElems: map[string]bool{}}
 	overlay := map[string][]byte{}
 	p.overlay = overlay
 	contractsByDir := map[string][]*Contract{}
@@ -120,6 +123,15 @@ func loadProg(root string) (*Prog, error) {
 		}
 		p.Problems = append(p.Problems, res.Problems...)
 		p.Contracts = append(p.Contracts, res.Contracts...)
+		for _, c := range res.Contracts {
+			if c.IsDirective {
+				// "<type text> elems-nonnil": type text as printed by hvc (package-relative)
+				f := strings.Fields(c.Directive)
+				if len(f) == 2 && f[1] == "elems-nonnil" {
+					p.NonNilElems[f[0]] = true
+				}
+			}
+		}
 		contractsByDir[path] = res.Contracts
 		return nil
 	})
@@ -311,6 +323,14 @@ func (p *Prog) readMarkerPrefix(fi *FuncInfo, info *types.Info, list []ast.Stmt,
 			case "__lemma":
 				if fl, ok := call.Args[0].(*ast.FuncLit); ok {
 					fi.Lemmas = append(fi.Lemmas, fl)
+				}
+			case "__split":
+				fi.SplitExpr = closureExpr(call.Args[0])
+				if tv, ok := info.Types[call.Args[1]]; ok && tv.Value != nil {
+					fi.SplitLo, _ = constant.Int64Val(constant.ToInt(tv.Value))
+				}
+				if tv, ok := info.Types[call.Args[2]]; ok && tv.Value != nil {
+					fi.SplitHi, _ = constant.Int64Val(constant.ToInt(tv.Value))
 				}
 			case "__replaytext":
 				fi.ReplayText = call.Args[0]
